@@ -76,6 +76,10 @@ pub struct IterCase {
     /// hundred choice points (each scan is 129 loads), far more than the schedule has bytes
     #[serde(default)]
     pub stretch: u8,
+    /// the watched signals were first taken over by plain (information-less) actions of the
+    /// application, before any iterator existed
+    #[serde(default)]
+    pub plain_first: bool,
 }
 
 pub fn strategy(with_close: bool) -> BoxedStrategy<IterCase> {
@@ -117,8 +121,9 @@ pub fn strategy(with_close: bool) -> BoxedStrategy<IterCase> {
         prop_oneof![3 => Just(0u8), 1 => 1u8..4],
         prop::bool::weighted(0.5),
         prop_oneof![2 => Just(1u8), 1 => Just(2u8), 2 => Just(4u8), 1 => Just(8u8)],
+        prop::bool::weighted(0.25),
     )
-        .prop_map(|(exf, consumer, polls, mut init, mut others, nested, schedule, late, failed_ctor, handoff, stretch)| {
+        .prop_map(|(exf, consumer, polls, mut init, mut others, nested, schedule, late, failed_ctor, handoff, stretch, plain_first)| {
             // one case in eight: two threads add the same, not yet watched signal at the same time
             // (derived from values already drawn, so that shrinking stays monotone)
             if schedule.len() % 8 == 3 {
@@ -135,7 +140,7 @@ pub fn strategy(with_close: bool) -> BoxedStrategy<IterCase> {
             }
             let n = others.len() + 1;
             let nested = nested.into_iter().map(|(t, at, sig, on)| INested { thread: t % n, at, sig, on }).collect();
-            IterCase { exf, consumer, polls, init, others, nested, schedule, late, failed_ctor, handoff, stretch }
+            IterCase { exf, consumer, polls, init, others, nested, schedule, late, failed_ctor, handoff, stretch, plain_first }
         })
         .boxed()
 }
@@ -176,14 +181,24 @@ impl Rec for Origin {
         self.process.as_ref().map_or(-2, |p| p.pid as i64)
     }
     fn unfaithful(&self) -> Option<String> {
-        use signal_hook::low_level::siginfo::{Cause, Sent};
-        if self.cause != Cause::Sent(Sent::User) {
-            return Some(format!("origin reports cause {:?}, the delivery was SI_USER", self.cause));
-        }
+        // judged against the independent decoder of C17 for the code this delivery carried
+        let got = crate::c17::cause_label(&self.cause);
         match &self.process {
-            Some(p) if p.uid == crate::reg::info_uid(p.pid as i32) => None,
-            Some(p) => Some(format!("origin reports uid {} for sender {}, the delivery carried uid {}", p.uid, p.pid, crate::reg::info_uid(p.pid as i32))),
-            None => Some("origin carries no process although the delivery was SI_USER".into()),
+            Some(p) => {
+                let code = crate::reg::code_of(p.pid as i32);
+                let (want, has) = crate::c17::reference(self.signal, code);
+                if !has || got != want {
+                    return Some(format!("origin reports cause {} with process {:?}; the delivery carried si_code {} (expected {}{})", got, p, code, want, if has { "" } else { ", no process" }));
+                }
+                if p.uid != crate::reg::info_uid(p.pid as i32) {
+                    return Some(format!("origin reports uid {} for sender {}, the delivery carried uid {}", p.uid, p.pid, crate::reg::info_uid(p.pid as i32)));
+                }
+                None
+            }
+            // which delivery it was cannot be told without a process; the only process-less
+            // records the simulated kernel produces are the small positive codes -> Unknown
+            None if got == "Unknown" => None,
+            None => Some(format!("origin reports cause {} without a process", got)),
         }
     }
 }
@@ -198,6 +213,7 @@ fn yielded<R: Rec>(r: &R, phase: i64) {
     vsched::mark("yield", r.sig() as i64, r.id());
     if let Some(why) = r.unfaithful() {
         vsched::violate("C10/record", format!("yielded record of signal {} (sender id {}) is not a faithful copy: {}", r.sig(), r.id(), why));
+        vsched::violate("C17/stale-info", format!("reported origin of a delivery of signal {} does not match the information the kernel supplied: {}", r.sig(), why));
     }
     let _ = phase;
 }
@@ -256,6 +272,12 @@ where
 {
     let init: Vec<c_int> = case.init.iter().map(|s| SIGS[*s as usize % 3]).collect();
     let read_fd = rd.as_raw_fd();
+    if case.plain_first {
+        for s in SIGS.iter() {
+            let _ = unsafe { signal_hook_registry::register(*s, || {}) };
+        }
+        vsched::mark("plain-actions-first", 0, 0);
+    }
     if case.failed_ctor != 0 {
         let bad = match case.failed_ctor {
             1 => 0,
@@ -841,6 +863,7 @@ pub fn analyse(case: &IterCase, res: &RunResult) -> CaseReport {
         // order is judged per consuming thread: two threads draining concurrently log their
         // yields in an order that says nothing about the order in which they took the records
         let mut last_rec_delivery: HashMap<(i64, i32), i64> = HashMap::new();
+        let mut processless: HashMap<i64, u64> = HashMap::new();
         for (pos, sig, id, _load, _pc) in &yields {
             let ytid = yield_tid.get(pos).cloned().unwrap_or(0);
             // watched?
@@ -869,6 +892,16 @@ pub fn analyse(case: &IterCase, res: &RunResult) -> CaseReport {
                             }
                         }
                         last_rec_delivery.insert((*sig, ytid), *id);
+                    }
+                    _ if case.exf % 3 == 2 && *id == -2 => {
+                        // an origin without a process: one of the begun deliveries of that signal
+                        // that carried a process-less code, each at most once
+                        let n = processless.entry(*sig).or_insert(0u64);
+                        *n += 1;
+                        let begun = dels.iter().filter(|d| d.sig == *sig && d.start < *pos && !crate::c17::reference(*sig as i32, crate::reg::code_of(d.id as i32)).1).count() as u64;
+                        if *n > begun {
+                            rep.viol("C10/record", format!("{} process-less origin records of signal {} although only {} deliveries without a sender had begun", n, sig, begun));
+                        }
                     }
                     _ => rep.viol("C10/record", format!("yielded record (signal {}, sender id {}) matches no delivery that had begun", sig, id)),
                 }
@@ -1063,6 +1096,9 @@ pub fn analyse(case: &IterCase, res: &RunResult) -> CaseReport {
         if d.end.is_some() && (wakes != 1 || stores != 1) {
             rep.viol("C13/count", format!("delivery {} of signal {} stored {} times and made {} wake-up attempts on the self-pipe of an instance that watches the signal once", d.id, d.sig, stores, wakes));
         }
+    }
+    if case.plain_first {
+        rep.class("plain-actions-first");
     }
     if second_consumer(case) {
         rep.class("concurrent-batch-consumers");
